@@ -18,8 +18,8 @@ ASSUMPTIONS = [               'quoted strings in user alternatives contain no es
                'under @@section a property key may give nothing or a raw body (fuzzy match), under @@property the converse; only "must not give its own line" is judged',
                'value-scope keywords are checked for properties with a single built-in snippet',
                'a per-syntax `cache` dict is used for 39 of 40 calls (snippet conversion costs 6 ms); every second user table goes through one cache dict shared by all tables and scopes of the shard']
-FLOORS = {'quick': {'key': 2700, 'keyword': 1500, 'scope': 5000, 'user-table': 1500}, 'thorough': {'key': 2700, 'keyword': 1500, 'scope': 5000, 'user-table': 40000}}
-REQUIRED_MONITORS = ['oracle:key-reaches-snippet', 'oracle:keyword', 'oracle:scope', 'oracle:user-table']
+FLOORS = {'quick': {'key': 2700, 'keyword': 1500, 'scope': 5000, 'user-table': 1500, 'user-table:bystander': 600}, 'thorough': {'key': 2700, 'keyword': 1500, 'scope': 5000, 'user-table': 40000, 'user-table:bystander': 7000}}
+REQUIRED_MONITORS = ['oracle:key-reaches-snippet', 'oracle:keyword', 'oracle:scope', 'oracle:user-table', 'oracle:builtin-key-beside-user-table']
 SYNTAXES = ['css', 'scss', 'less', 'sss', 'sass', 'stylus']
 FMT = {'css': (': ', ';'), 'scss': (': ', ';'), 'less': (': ', ';'), 'sss': (': ', ';'), 'sass': (': ', ''), 'stylus': (' ', '')}
 RE_PROP = re.compile(r'^([a-z-]+)(?:\s*:\s*([^\n\r;]+?);*)?$')
@@ -197,9 +197,13 @@ def user_table(rng, builtin_keys):
             k = ''.join(rng.choice('abcdefghklmnopqrstuvwxz') for _ in range(rng.randint(1, 4) if rng.random() < 0.9 else rng.randint(7, 14)))
             if rng.random() < 0.1:
                 k = '@' + k
-        if k.lower() in used or (k.lower() in (b.lower() for b in builtin_keys) and k not in builtin_keys):
+        if rng.random() < 0.15:
+            # the same letters in another case are ANOTHER key (of a built-in snippet, or of a user snippet written before): typed exactly, each selects its own snippet
+            b = rng.choice(sorted(tbl) or builtin_keys) if rng.random() < 0.3 else rng.choice(builtin_keys)
+            k = rng.choice([b.upper(), b.title(), b[:-1] + b[-1].upper(), b[0] + b[1:].upper()])
+        if k in used:
             continue
-        used.add(k.lower())
+        used.add(k)
         r = rng.random()
         tag = 'u%s' % ('abcdefgh'[i] if i < 8 else 'x' + 'abcdefghijklmnopqrstuvwxyz'[i % 26] + 'abcdefghijklmnopqrstuvwxyz'[i // 26])
  
@@ -304,6 +308,23 @@ def run_shard(desc, ctx):
                         r3 = mon.run(key, syntax, {'name': sc2}, ut, cache_key=ck)
                         if r3[0] == 'ok' and norm(r3[1]) != exp:
                             ctx.violation('user-snippet-unreachable-under-its-scope', dict(case, scope=sc2), {'expected': exp, 'actual': norm(r3[1])})
+                # "and no other": built-in keys the table does not mention still select their built-in snippets (those that differ from a user key only in letter case first)
+                low = {k.lower() for k in ut}
+                near = [b for b in builtin if b not in ut and b.lower() in low and b != 'lg']
+                for key in (near + rng.sample(builtin, 2))[:3]:
+                    if key in ut or key == 'lg':
+                        continue
+                    ctx.ev('user-table:bystander')
+                    ctx.mon('oracle:builtin-key-beside-user-table')
+                    kind, exp, prop = expected_line(tbl[key], syntax)
+                    r = mon.run(key, syntax, None, ut, cache_key=ck)
+                    case = {'kind': 'bystander', 'table': ut, 'key': key, 'syntax': syntax}
+                    if r[0] == 'exc':
+                        ctx.violation('exception', case, {'exc': list(core.exc_site(r[1])), 'msg': str(r[1])[:100]})
+                    elif norm(r[1]) != exp:
+                        ctx.violation('builtin-key-lost-beside-user-table', case, {'expected': exp, 'actual': norm(r[1]), 'case_variant_in_table': key in near})
+                    else:
+                        ctx.state('bystander', 'case-variant' if key in near else 'plain')
                 # the snippet cache of this table is not needed any more
                 mon.caches = {k: v for k, v in mon.caches.items() if k[1] is None or k[1] == shared}
     finally:
@@ -318,6 +339,14 @@ def replay(case, ctx):
         mon.key_case(case['key'], case['value'], case['syntax'], case['scope'], 'replay')
     elif case['kind'] == 'keyword':
         mon.keyword_case(case['key'], case['property'], case['keyword'], case['typed'], case['syntax'], 'replay', case['value_scope'])
+    elif case['kind'] == 'bystander':
+        ctx.ev('replay')
+        kind, exp, prop = expected_line(raw_table()[case['key']], case['syntax'])
+        r = mon.run(case['key'], case['syntax'], None, case['table'])
+        if r[0] == 'exc':
+            ctx.violation('exception', case, {'exc': list(core.exc_site(r[1]))})
+        elif norm(r[1]) != exp:
+            ctx.violation('builtin-key-lost-beside-user-table', case, {'expected': exp, 'actual': norm(r[1])})
     else:
         ut = case['table']
         kind, exp, prop = expected_line(ut[case['key']], case['syntax'])
